@@ -471,7 +471,7 @@ def corrupt_lines(rng, lines):
     """one structured single edit of a list of lines (each with its '\\n'); returns (kind, new_lines)"""
     lines = list(lines)
     kind = rng.choice(['char', 'char', 'char', 'del-char', 'ins-char', 'del-line', 'dup-line', 'swap', 'field', 'field',
-                       'trunc-line', 'prop-line', 'counts'])
+                       'trunc-line', 'prop-line', 'counts', 'sgroup'])
     if not lines:
         return 'empty', lines
     i = rng.randrange(len(lines))
@@ -509,6 +509,22 @@ def corrupt_lines(rng, lines):
         l = f"M  {rng.choice(['CHG', 'ISO', 'RAD', 'ALS', 'STY', 'XYZ', 'SDD'])}{n:3d}{ent}\n"
         j = max(0, len(lines) - 1 - rng.choice([0, 0, 1, 2]))
         lines.insert(j, l)
+    elif kind == 'sgroup':
+        # Marvin's implicit-H annotation (as in the repo's arenes.sdf / implicit.sdf), intact or damaged
+        k = rng.choice([1, 1, 2, 7])
+        a = rng.choice([1, 1, 2, 0, 50, -3])
+        blk = [f'M  STY  1 {k:3d} {rng.choice(["DAT", "DAT", "DAT", "SUP", "GEN"])}\n',
+               f'M  SAL {k:3d}{rng.choice([1, 1, 1, 2, 0]):3d} {a:3d}\n',
+               f'M  SDT {k:3d} {rng.choice(["MRV_IMPLICIT_H", "MRV_IMPLICIT_H", "mrv_implicit_h", "OTHER", "A B"])}\n',
+               f'M  SDD {k:3d}     0.0000    0.0000    DR    ALL  0       0\n',
+               rng.choice([f'M  SED {k:3d} IMPL_H{rng.choice([0, 1, 2, 3])}\n', f'M  SED {k:3d} IMPL_H/1/\n', f'M  SMT {k:3d} IMPL_Hx\n',
+                           f'M  SED {k:3d}\n', f'M  SED {k + 1:3d} IMPL_H1\n'])]
+        if rng.random() < 0.4:
+            del blk[rng.randrange(len(blk))]
+        if rng.random() < 0.2:
+            blk.append(blk[0].replace('  1 ', '  2 ').rstrip('\n') + f' {k + 1:3d} DAT\n')
+        j = max(0, len(lines) - 1)
+        lines[j:j] = blk
     elif kind == 'counts' and len(lines) > 3:
         body = lines[3].rstrip('\n')
         a = rng.choice([0, 3])
@@ -716,7 +732,16 @@ def corrupt_v3(rng, lines):
     elif kind == 'sgroup':
         for k, l in enumerate(lines):
             if l.startswith('M  V30 END CTAB'):
-                lines[k:k] = ['M  V30 BEGIN SGROUP\n', 'M  V30 1 DAT 0 ATOMS=(1 1) FIELDNAME=MRV_IMPLICIT_H FIELDDATA=IMPL_H1\n', 'M  V30 END SGROUP\n']
+                a = rng.choice(['(1 1)', '(1 1)', '(2 1 2)', '(1 99)', '(0)', '()', '(1 x)'])
+                fn = rng.choice(['MRV_IMPLICIT_H', 'MRV_IMPLICIT_H', '"MRV_IMPLICIT_H"', 'OTHER', '""'])
+                fd = rng.choice(['IMPL_H1', 'IMPL_H2', '"IMPL_H0"', 'IMPL_Hx', 'IMPL_H', '""'])
+                if rng.random() < 0.5:
+                    blk = [f'M  V30 1 DAT 0 ATOMS={a} FIELDNAME={fn} -\n',
+                           'M  V30 FIELDDISP="    0.0000    0.0000    DR    ALL  0       0" -\n', f'M  V30 FIELDDATA={fd}\n']
+                else:
+                    blk = [f'M  V30 1 {rng.choice(["DAT", "DAT", "SRU", "SUP", "DATA"])} 0 ATOMS={a} FIELDNAME={fn} FIELDDATA={fd}{rng.choice(["", " NOEQ", " X=1"])}\n']
+                lines[k:k] = [rng.choice(['M  V30 BEGIN SGROUP\n', 'M  V30 BEGIN SGROUP\n', 'M  V30 BEGIN COLLECTION\n'])] + blk + \
+                    rng.choice([['M  V30 END SGROUP\n'], ['M  V30 END SGROUP\n'], []])
                 break
     return kind, lines
 
